@@ -3,6 +3,7 @@ Require Import Wbxml.Model.Codec.
 Require Import Wbxml.Model.BufferModel.
 Require Import Wbxml.Model.BufferSpec.
 Require Import Wbxml.Model.ListModel.
+Require Import Wbxml.Model.BufferAlloc.
 Require Extraction.
 Require Import ExtrOcamlBasic.
-Extraction "model.ml" create step contents spec_step op_ok lcreate lstep lspec_step.
+Extraction "model.ml" create step contents spec_step op_ok lcreate lstep lspec_step step_a lstep_a lcreate_a.
